@@ -65,7 +65,7 @@ Definition side_is_ok (x : sx) : bool :=
    keys.  Values that need the pickle fallback make no demand when the fallback is switched off or the object
    cannot be pickled (the documented UnhashableError). *)
 Definition side_ok (fp : bool) (v : pyval) (sv st : sx) : bool :=
-  if has_opaque v && (negb fp || negb (all_picklable v)) then true
+  if negb (convertible fp v) then true
   else side_is_ok_hashable sv
        && (if has_opaque v then true else match un_bool st with Some true => true | _ => false end).
 
